@@ -82,7 +82,7 @@ def load_manifest_level(prop: str) -> str:
 # quick-tier selection — the thorough tier runs everything
 PRIORITY = {
     "C01": ["roundtrip", "accepts_spec", "is_spec"], "C02": ["tamper", "boundary", "shift", "refused"], "C03": ["is_spec", "accepts_spec"],
-    "C04": ["usable", "zero_iter", "identity", "short", "len_", "codec"], "C05": ["roundtrip", "params_acceptance", "is_spec"],
+    "C04": ["usable", "zero_iter", "identity", "short", "len_", "codec"], "C05": ["params_acceptance", "roundtrip", "is_spec"],
     "C06": ["tamper", "len_", "short", "relabel"], "C07": ["is_spec", "accepts_spec", "contract", "params"],
     "C08": ["codec", "encode", "decode", "signs_verifiably", "valid_point"], "C10": ["codec", "relabel", "binding", "constants"],
     "C12": ["tamper", "short", "unseal_contract"], "C16": ["fail_closed", "random", "own_nonce"],
@@ -112,8 +112,9 @@ def boundary_first(hs: list) -> list:
                 continue
             done.add(m.group(1))
             members = sorted(fam[m.group(1)], key=lambda x: int(x.name.rsplit("_", 1)[1]))
-            mid = (len(members) - 1) / 2
-            out += sorted(members, key=lambda x: abs(members.index(x) - mid))
+            # largest first: the members at and just beyond the exact length (…_96, _97 of a 96-byte format; _64, _66 of a 64-byte
+            # minimum) exercise the most code and sit on the boundary; then downwards
+            out += list(reversed(members))
         else:
             out.append(h)
     return out
@@ -278,7 +279,7 @@ def main(argv=None):
             # (an expensive canary is thorough-only: in the quick tier vacuity is still guarded by the cover at the end of every harness)
             canaries = [h for h in hs if h.expect == "fail" and timings.get(f"{u.name}::{h.name}", 120.0) <= 150.0][:1]
             rest = sorted(boundary_first([h for h in hs if h.expect != "fail"]), key=lambda h: (priority_rank(prop, h.name), 0 if h.props[0] == prop else 1))
-            cheap = lambda h: timings.get(f"{u.name}::{h.name}", 120.0) <= 60.0
+            cheap = lambda h: False   # (an exemption for cheap harnesses was tried: 226 harnesses for C04, 807 s — removed)
             keep, n_exp = [], 0
             for h in rest:
                 if cheap(h) and len(keep) < 2 * cap_u:
@@ -311,9 +312,7 @@ def main(argv=None):
                         if i < len(selected[u.name]):
                             h = selected[u.name][i]
                             progressed = True
-                            if timings.get(f"{u.name}::{h.name}", 120.0) <= 60.0:
-                                picked[u.name].append(h)          # cheap harnesses do not count against the group cap
-                            elif n < gcap:
+                            if n < gcap:
                                 picked[u.name].append(h); n += 1
                     if not progressed:
                         break
@@ -326,7 +325,7 @@ def main(argv=None):
     # over the groups so that every backend keeps its most important harnesses; what does not fit runs in the thorough tier.
     # (vp check stops a quick command after 900 s; 16 cores, builds take 1-2 min.)
     if tier == "quick" and not only:
-        budget = float(os.environ.get("VERIF_QUICK_BUDGET_S", "3800"))
+        budget = float(os.environ.get("VERIF_QUICK_BUDGET_S", "4200"))
         cost = lambda un, h: timings.get(f"{un}::{h.name}", 120.0)
         queues = {g: [(u.name, h) for u in us for h in selected[u.name]] for g, us in groups.items()}
         # within a group keep the round-robin order over its units
@@ -348,10 +347,7 @@ def main(argv=None):
                     un, h = q[i]
                     c = cost(un, h)
                     # cheap harnesses (<= 60 s) are nearly free next to the builds: they bypass the budget up to a separate allowance
-                    if c <= 60.0 and cheap_spent + c <= cheap_budget:
-                        kept[un].append(h)
-                        cheap_spent += c
-                    elif spent + c <= budget or not kept[un] and i == 0:
+                    if spent + c <= budget or not kept[un] and i == 0:
                         kept[un].append(h)
                         spent += c
             i += 1
